@@ -21,6 +21,8 @@ def config_text(p, nb):
     cv = ["colvar {", "  name z", "  width 1.0", "  lowerBoundary 0.0", "  upperBoundary %d.0" % nb]
     if p["hardLower"]:
         cv.append("  hardLowerBoundary on")
+    if p.get("expand"):
+        cv.append("  expandBoundaries on")
     cv += ["  distanceZ {", "    main { atomNumbers 1 }", "    ref { dummyAtom (0,0,0) }", "    axis (0,0,1)"]
     if p["periodic"]:
         cv += ["    period %d.0" % nb, "    wrapAround %s" % (nb / 2.0)]
@@ -59,7 +61,11 @@ class Runner:
         if a == "Restart":
             st = self.d.cmd(op="save")["state"]
             self.d.cmd(op="destroy")
-            self.start(st)
+            try:
+                self.start(st)
+            except vlib.MachineryError as e:
+                # a state the implementation has just written and cannot read back is a defect of the implementation
+                return {"op": "died", "signal": "the state saved by the implementation is rejected by its own loader (%s)" % str(e)[:300]}
         r = self.d.cmd(op="step", pos=[[0, 0, x / 2.0], [0, 0, 0]], newrun=(a == "NewRun"))
         if r.get("op") == "died":
             return r
@@ -196,7 +202,9 @@ def run(ctx):
     s = vlib.tlc("MCMeta", "MCMeta_sim.cfg", workers=8, simulate=(250 if quick else 4000), depth=10, seed=ctx.seed, timeout=900)
     ctx.add_tlc(s, "MCMeta generation (simulation)", exhaustive=False)
     ctx.exhaustive = True
-    sb = s.beh[:(1500 if quick else 40000)]
+    sb = list(s.beh)
+    random.Random(ctx.seed + 13).shuffle(sb)      # TLC prints simulated behaviours grouped by worker and parameter record
+    sb = sb[:(1500 if quick else 40000)]
     for b in behs[:2] + sb[:1]:
         ctx.sample(b)
     for b in behs + sb:
@@ -205,6 +213,20 @@ def run(ctx):
             ctx.nontriv(k)
     vlib.replay_parallel(ctx, behs, replay_chunk, on_result(ctx, "bfs"), "bfs")
     vlib.replay_parallel(ctx, sb, replay_chunk, on_result(ctx, "simulation"), "simulation")
+    # grid expansion (spec/MetaExpand.tla): the grown grids, also across a restart into the originally configured grid
+    rx = vlib.tlc("MCMetaExpand", "MCMetaExpand_mc.cfg", workers=16, timeout=1800)
+    ctx.add_tlc(rx, "MCMetaExpand properties")
+    if rx.violation:
+        ctx.violation("model:expand:" + rx.violation, "design-level invariant %s violated in spec/MetaExpand.tla" % rx.violation, {"tlc": vlib.counterexample(rx)})
+    gx = vlib.tlc("MCMetaExpand", "MCMetaExpand_gen.cfg", workers=16, timeout=900)
+    ctx.add_tlc(gx, "MCMetaExpand generation (BFS)")
+    bx = list(gx.beh)
+    random.Random(ctx.seed + 14).shuffle(bx)
+    bx = bx[:(3000 if quick else 60000)]
+    for b in bx:
+        if any(a["lo"] < 0 for a in b["acts"]) and b["acts"][-1]["e"] > 0:
+            ctx.nontriv(json.dumps(["expand", b["p"], [(a["a"], a["x"]) for a in b["acts"]]], sort_keys=True))
+    vlib.replay_parallel(ctx, bx, replay_chunk, on_result(ctx, "grid expansion"), "grid expansion")
     ev = record_traces(ctx, 40 if quick else 500, 12, 6)
     ctx.sample({"trace_excerpt": ev[:4]})
     r = vlib.validate_trace(ctx, "MetaTrace", "MetaTrace.cfg", ev, "random-driver")
